@@ -21,7 +21,7 @@ from common import rng_for, close, frac
 from fractions import Fraction
 
 RULE = ("option sets from VERIF_SEED: -a -b -e in {.5,1,2,3}, -p in {.5,.9}, -n in 2..4, -d in {absolute, numerical, levenshtein}, -m, -c, -k, --seed (incl. 0), "
-        "-s in {',', ';'}, output mode in {print, -o, -j}, 1..3 input files (csv; rttm) whose label sets are subsets of one another with 2..3 annotators x 3..5 units and numeric or word labels; "
+        "-s in {',', ';'}, output mode in {print, -o, -j} (every combination of -c / -k with every output mode is covered), 1..3 input files (csv; rttm) whose label sets are subsets of one another with 2..3 annotators x 3..5 units and numeric or word labels; "
         "non-trivial = a non-default -d, -a/-b/-e different from 1, or -m; distinct by (files, options)")
 TRUSTED_BASE = ["Coq 8.16.1 kernel (props/C20.v over the regenerated table)", "harness/gen_tables.py (AST translator, fail-closed)", "harness/{common,gen,c20}.py",
                 "argparse itself; the number formatting / parsing of print, csv and json"]
@@ -110,6 +110,9 @@ def parse_print(text, files, o):
 def parse_csv(path, files, o):
     rows = list(csv.reader(open(path, newline=""), delimiter=o["sep"]))
     head, body = rows[0], rows[1:]
+    # the header names the reported measures, in the order of the cells
+    if head != ["filename", "gamma"] + (["gamma-cat"] if o["c"] else []) + (["gamma-k"] if o["k"] else []):
+        raise ValueError("CSV header %r does not name the requested measures" % (head,))
     res = []
     for row in body:
         r = {"gamma": float(row[1])}
@@ -145,12 +148,16 @@ def same(a, b):
 
 def run(rep, tier, seed, pa):
     rng = rng_for(seed, "C20")
-    nsets = 14 if tier == "quick" else 120
+    nsets = 16 if tier == "quick" else 120
+    # the first twelve option sets run through every combination of (-c, -k) x output mode; the others are drawn
+    grid = [(c, k, out) for out in ("json", "csv", "print") for (c, k) in ((False, True), (True, False), (True, True), (False, False))]
     for si in range(nsets):
         o = {"a": rng.choice([0.5, 1, 2, 3]), "b": rng.choice([0.5, 1, 2, 3]), "e": rng.choice([0.5, 1, 2]), "p": rng.choice([0.5, 0.9]),
              "n": rng.choice([2, 3, 4]), "d": rng.choice(["absolute", "numerical", "levenshtein"]), "m": rng.random() < 0.4, "c": rng.random() < 0.6,
              "k": rng.random() < 0.5, "seed": rng.choice([None, 0, 4772, rng.randrange(10 ** 6)]), "sep": rng.choice([",", ",", ";"]),
              "fmt": rng.choice(["csv", "csv", "rttm"]), "out": rng.choice(["print", "csv", "json"])}
+        if si < len(grid):
+            o["c"], o["k"], o["out"] = grid[si]
         targeted = si % 4 == 3
         if targeted:     # several files with nested numeric category sets of different spreads: each file must get ITS OWN categorical dissimilarity
             o.update({"d": "numerical", "fmt": "csv", "b": rng.choice([1, 2, 3])})
